@@ -137,7 +137,7 @@ static const char *const qsym[] = {
 };
 #define NQSYM 14
 #define NVCBLOCK 2
-#define NSCALE 2
+#define NSCALE 3
 
 /* descriptor alphabet: every string of up to 4 (thorough 5) of these */
 static const char *const dsym[] = {
@@ -169,8 +169,9 @@ static void op_name(int tier, int op, char *buf, size_t n)
     } else if (op < NMOD + NQSYM + NVCBLOCK) {
 	snprintf(buf, n, "vnacal_property-block(%d)", op - NMOD - NQSYM);
     } else if (op < NMOD + NQSYM + NVCBLOCK + NSCALE) {
-	snprintf(buf, n, "scale-block(%s)", op - NMOD - NQSYM - NVCBLOCK ?
-		"map" : "list");
+	snprintf(buf, n, "scale-block(%s)",
+		op - NMOD - NQSYM - NVCBLOCK == 2 ? "map-twins" :
+		op - NMOD - NQSYM - NVCBLOCK ? "map" : "list");
     } else {
 	snprintf(buf, n, "descriptor-block(first=%s)",
 		pm_show(dsym[op - NMOD - NQSYM - NVCBLOCK - NSCALE]));
@@ -585,7 +586,9 @@ static void apply_op(vf_result *r, const op_t *o, vnaproperty_t **root,
 			    "has the element", pm_show(o->b), ename(e));
 		break;
 	    }
-	    errno = 0;
+	    /* errno as an earlier, failed look-up leaves it: a copy that
+	       succeeds does not depend on it */
+	    errno = ENOENT;
 	    rv = vnaproperty_copy(sub, src);
 	    e = errno;
 	    if (last && rv != 0)
@@ -1008,6 +1011,54 @@ static void run_scale_block(int which, vf_result *r)
 		++steps;
 	    }
 	}
+    } else if (which == 2) {
+	/*
+	 * two keys with the same 32-bit hash value (CRC-32C, found by
+	 * search): their order in a chain rests on the key text alone.
+	 * They are entered first, in both orders, and the map then grows
+	 * through its table sizes; both stay retrievable, can be replaced
+	 * and deleted, at every size.
+	 */
+	static const char *const twin[2] = { "fybnafpw", "fztucssg" };
+	vf_desc(r, "map holding two keys of identical hash value, grown to 80 "
+		"keys; both read, replaced, deleted and re-added at every "
+		"size, entered in both orders");
+	for (int order = 0; order < 2 && r->status == VF_OK; ++order) {
+	    vnaproperty_t *root = NULL;
+	    pm_node *mroot = NULL;
+	    int bad = 0;
+	    bad = both(r, &root, &mroot, 0, "%s=first", twin[order]);
+	    if (!bad) bad = both(r, &root, &mroot, 0, "%s=second",
+		    twin[1 - order]);
+	    for (int n = 0; n < 80 && !bad; ++n) {
+		bad = both(r, &root, &mroot, 0, "key%d.v=%d", n * 7919 % 1000,
+			n);
+		if (!bad && same_tree(root, mroot, &got, &want, why,
+			    sizeof(why)) != 0) {
+		    vf_fail(r, "scale:map-twins", "map of %d keys holding "
+			    "two keys of one hash value: %s", n + 3, why);
+		    bad = 1;
+		}
+		for (int t = 0; t < 2 && !bad; ++t) {
+		    bad = both(r, &root, &mroot, 0, "%s=v%d", twin[t], n);
+		    if (!bad && (n % 7) == t) {
+			bad = both(r, &root, &mroot, 1, "%s", twin[t]);
+			if (!bad) bad = both(r, &root, &mroot, 0, "%s=back%d",
+				twin[t], n);
+		    }
+		    ++steps;
+		}
+		if (!bad && same_tree(root, mroot, &got, &want, why,
+			    sizeof(why)) != 0) {
+		    vf_fail(r, "scale:map-twins", "map of %d keys after "
+			    "replacing the two keys of one hash value: %s",
+			    n + 3, why);
+		    bad = 1;
+		}
+	    }
+	    vnaproperty_delete(&root, ".");
+	    pm_free(mroot);
+	}
     } else {
 	vnaproperty_t *root = NULL;
 	pm_node *mroot = NULL;
@@ -1369,7 +1420,7 @@ static void run_hist(int tier, const int *ops, int n, vf_result *r)
 	    if (vnaproperty_set(&copy, "old.content[2]=x") != 0)
 		vf_fail(r, "result:vnaproperty_set", "set on an empty root "
 			"failed");
-	    errno = 0;
+	    errno = ENOENT;	/* stale, from an earlier failed call */
 	    rv = vnaproperty_copy(&copy, root);
 	    ++r->transitions;
 	    if (rv != 0)
